@@ -3,8 +3,10 @@
 //! `ckbmc check <ID> --tier quick|thorough [--replay file]`   orchestrator (spawns shard workers)
 //! `ckbmc worker <ID> --tier T --shard i --of n --out file`   one shard, writes a partial report
 mod core;
+mod forge;
 mod node;
 mod props;
+mod universe;
 mod world;
 
 use crate::core::*;
